@@ -460,6 +460,7 @@ func frameSafe(f func()) (panicked string) {
 
 // one endpoint of one conversation
 type frameSide struct {
+	lastRefused int // the last SetMtu value that was refused (retried later)
 	name     string
 	sess     *UDPSession
 	tag      byte
@@ -696,6 +697,17 @@ func frameOOBPayload(rng *vrng, tag byte, idx, size int) []byte {
 
 // writer: the chunks of the stream with OOB messages interleaved at random points
 // frameMtuValue: growing, shrinking, boundary and out-of-range values
+// index of a cipher of the blockCrypt (CFB) family
+func frameCFBIndex(rot int) int {
+	var idx []int
+	for i, c := range frameCiphers() {
+		if c.name == "aes" || c.name == "blowfish" {
+			idx = append(idx, i)
+		}
+	}
+	return idx[rot%len(idx)]
+}
+
 func frameAEADIndex() int {
 	for i, c := range frameCiphers() {
 		if c.class == frameClassAEAD {
@@ -852,7 +864,16 @@ func (s *frameSide) run(rng *vrng, oob, flood, mtuOps bool, res *frameResult, re
 			sendOOB()
 		}
 		if mtuOps && rng.chance(35) {
-			s.setMtu(frameMtuValue(rng, sess))
+			m := frameMtuValue(rng, sess)
+			if s.lastRefused != 0 && rng.chance(40) {
+				m = s.lastRefused // an application retrying the value it was refused (larger segments have drained meanwhile)
+				res.Dist["setmtu-retry-of-refused"]++
+			}
+			if s.setMtu(m) {
+				s.lastRefused = 0
+			} else if m > IKCP_OVERHEAD+1+sess.headerSize {
+				s.lastRefused = m
+			}
 		}
 		var werr error
 		if pn := frameSafe(func() { _, werr = sess.Write(data[off : off+n]) }); pn != "" {
@@ -1771,6 +1792,9 @@ func frameScenarios(rng *vrng, prop string) []frameCfg {
 		c.Flood = prop == "C19" && i%12 == 3
 		if prop == "C09" && i%25 == 11 { // a crowd: 12 sessions of one listener, one key, all sending at once
 			c = frameCfg{Cipher: 1 + (i/25+rot)%(nc-1), D: c.D, P: c.P, MtuKind: 2, Pattern: 2, OOBMode: c.OOBMode, Clients: 12}
+			if i == 11 { // the first crowd always shares a CFB block cipher (one object with scratch state for all sessions of the listener)
+				c.Cipher = frameCFBIndex(rot)
+			}
 		}
 		if prop == "C10sess" && i >= n-4 { // directed: a FEC group straddling an accepted, smaller MTU
 			f := frameFecs[1+i%4]
